@@ -248,12 +248,18 @@ def run_config(ctx, rep, cfg):
     return len(backends), nsib, nlane
 
 
+from . import affine_rules
+
+
 def run(ctx, rep):
     rep.assume("not decided: value equality of the independently written vector round functions",
                "sibling comparison is on canonical summaries (field names, guard predicates, return constants), never on source text")
     for cfg in ctx.configs():
         nb, nsib, nlane = run_config(ctx, rep, cfg)
+        naff = affine_rules.check_siblings(ctx, rep, cfg)
         if cfg is None:
+            rep.floor("C06.R5", "block functions whose linear layer was compared with the scalar one", naff, 5)
+            rep.analysed["affine_not_analysed"] = affine_rules.skipped(ctx, cfg)
             rep.floor("C06.R1", "CTR back ends", nb, 7)
             rep.floor("C06.R1", "vector slot functions compared with their generic sibling", nsib, 16)
             rep.floor("C06.R3", "CTR batch encryptors analysed lane-wise", nlane, 3)
